@@ -436,16 +436,19 @@ Proof.
   intros Hi H. unfold nthz, updz. destruct (j <? 0) eqn:E; [reflexivity|]. apply nth_error_upd_neq. lia.
 Qed.
 
-Lemma fill_spec n : forall ms ps row0 row, logits_fill n ms ps row0 = Some row ->
+Lemma index_of_inj t m m' i : index_of m t 0 = Some i -> index_of m' t 0 = Some i -> m = m'.
+Proof. intros H1 H2. apply index_of_sound in H1. apply index_of_sound in H2. destruct H1, H2. congruence. Qed.
+
+Lemma fill_spec t : forall ms ps row0 row, logits_fill t ms ps row0 = Some row ->
   length row = length row0 /\
-  (forall id, (forall m, In m ms -> encode_move n m <> Some id) -> nthz row id = nthz row0 id) /\
+  (forall id, (forall m, In m ms -> index_of m t 0 <> Some id) -> nthz row id = nthz row0 id) /\
   (NoDup ms -> forall j m, nth_error ms j = Some m ->
-     exists p id, nth_error ps j = Some p /\ encode_move n m = Some id /\ 0 <= id < zlen row /\
+     exists p id, nth_error ps j = Some p /\ index_of m t 0 = Some id /\ 0 <= id < zlen row /\
                   nthz row id = Some p).
 Proof.
   induction ms as [|m ms IH]; intros ps row0 row H; simpl in H.
   - injection H as <-. split; [reflexivity|]. split; [reflexivity|]. intros _ [|j] m Hj; discriminate.
-  - destruct ps as [|p ps]; [discriminate|]. destruct (encode_move n m) as [i|] eqn:Ei; [|discriminate].
+  - destruct ps as [|p ps]; [discriminate|]. destruct (index_of m t 0) as [i|] eqn:Ei; [|discriminate].
     destruct (set_at row0 i p) as [row'|] eqn:Es; [|discriminate].
     apply set_at_spec in Es. destruct Es as (Hi & ->).
     destruct (IH ps _ row H) as (Hlen & Hframe & Hhit).
@@ -457,7 +460,7 @@ Proof.
       * injection Hj as <-. exists p, i. split; [reflexivity|]. split; [assumption|].
         split; [unfold zlen in *; lia|].
         rewrite Hframe; [apply nthz_updz_eq; assumption|].
-        intros m' Hm' He. apply Hna. rewrite (encode_move_inj n m m' i Ei He). assumption.
+        intros m' Hm' He. apply Hna. rewrite (index_of_inj t m m' i Ei He). assumption.
       * destruct (Hhit Hnd' j m' Hj) as (p' & id & Hp & He & Hr & Hn). exists p', id. repeat split; assumption || lia.
 Qed.
 
@@ -480,7 +483,8 @@ Lemma dense_target n ms ps row : logits_row n ms ps = Some row -> NoDup ms ->
   (forall id, 0 <= id < Consts.MAX_MOVE_ID -> (forall m, In m ms -> encode_move n m <> Some id) ->
      nthz row id = Some 0%Q).
 Proof.
-  unfold logits_row. intros H Hnd. destruct (fill_spec n ms ps zero_row row H) as (Hlen & Hframe & Hhit).
+  unfold logits_row, logits_row_t. intros H Hnd.
+  destruct (fill_spec (table n) ms ps zero_row row H) as (Hlen & Hframe & Hhit).
   assert (Hz : zlen row = Consts.MAX_MOVE_ID).
   { unfold zlen. rewrite Hlen. unfold zero_row. rewrite repeat_length. pose proof max_move_id_nonneg. lia. }
   split; [exact Hz|]. split.
@@ -494,14 +498,14 @@ Lemma dense_target_last_wins n ms1 m ms2 ps row id : logits_row n (ms1 ++ m :: m
   encode_move n m = Some id -> (forall m', In m' ms2 -> encode_move n m' <> Some id) ->
   exists p, nth_error ps (length ms1) = Some p /\ nthz row id = Some p.
 Proof.
-  unfold logits_row. generalize zero_row. revert ps.
+  unfold logits_row, logits_row_t, encode_move. generalize zero_row. generalize (table n). intros t. revert ps.
   induction ms1 as [|a ms1 IH]; intros ps row0 H He Hno; simpl in H.
   - destruct ps as [|p ps]; [discriminate|]. rewrite He in H.
     destruct (set_at row0 id p) as [row'|] eqn:Es; [|discriminate].
     apply set_at_spec in Es. destruct Es as (Hi & ->).
-    destruct (fill_spec n ms2 ps _ row H) as (_ & Hframe & _). exists p. split; [reflexivity|].
+    destruct (fill_spec t ms2 ps _ row H) as (_ & Hframe & _). exists p. split; [reflexivity|].
     rewrite (Hframe id Hno). apply nthz_updz_eq. assumption.
-  - destruct ps as [|p ps]; [discriminate|]. destruct (encode_move n a) as [i|]; [|discriminate].
+  - destruct ps as [|p ps]; [discriminate|]. destruct (index_of a t 0) as [i|]; [|discriminate].
     destruct (set_at row0 i p) as [row'|]; [|discriminate]. simpl. apply (IH ps row' H He Hno).
 Qed.
 
@@ -554,16 +558,16 @@ Proof.
   destruct n as [|n]; [lia|]. f_equal. apply IH; lia.
 Qed.
 
-Lemma logits_rows_length n : forall mss pss rs, logits_rows n mss pss = Some rs -> length rs = length mss.
+Lemma logits_rows_length t : forall mss pss rs, logits_rows_t t mss pss = Some rs -> length rs = length mss.
 Proof.
   induction mss as [|ms mss IH]; intros pss rs H; simpl in H; [injection H as <-; reflexivity|].
-  destruct pss as [|ps pss]; [discriminate|]. destruct (logits_row n ms ps); [|discriminate].
-  destruct (logits_rows n mss pss) as [rs'|] eqn:E; [|discriminate]. injection H as <-. simpl.
+  destruct pss as [|ps pss]; [discriminate|]. destruct (logits_row_t t ms ps); [|discriminate].
+  destruct (logits_rows_t t mss pss) as [rs'|] eqn:E; [|discriminate]. injection H as <-. simpl.
   rewrite (IH pss rs' E). reflexivity.
 Qed.
 
 Lemma logits_length tr lg : logits tr = Some lg -> length lg = length (t_moves tr).
-Proof. unfold logits. destruct (t_positions tr); [discriminate|]. apply logits_rows_length. Qed.
+Proof. unfold logits, logits_rows. destruct (t_positions tr); [discriminate|]. apply logits_rows_length. Qed.
 
 Lemma all_logits_spec : forall logs lg, all_logits logs = Some lg ->
   exists lgs, Forall2 (fun tr a => logits tr = Some a) logs lgs /\ lg = concat lgs.
